@@ -22,4 +22,4 @@ done
 "$TOOLS/llvm-cov" show "$SCRATCH/release/wv" -instr-profile="$SCRATCH/wv.profdata" --ignore-filename-regex='(\.cargo|rustc|/verif/)' --show-line-counts-or-regions > "$ROOT/.work/coverage/show.txt"
 # uncovered lines: "   123|      0|code"
 grep -E "^/repo|^ +[0-9]+\| +0\|" "$ROOT/.work/coverage/show.txt" > "$ROOT/.work/coverage/uncovered.txt" || true
-tail -n +1 "$ROOT/.work/coverage/report.txt" | awk '{print $1, $(NF-3), $(NF-2), $(NF-1)}' | column -t | tail -80
+grep -E "^(src|crates|Filename|TOTAL|/repo)" "$ROOT/.work/coverage/report.txt" | awk "{print \$1, \$(NF-5), \$(NF-4), \$(NF-3), \$(NF-2), \$(NF-1), \$NF}" | tail -80
